@@ -568,9 +568,16 @@ impl<'a> Peripheral<'a> {
             }
             PeripheralState::DataExchange | PeripheralState::PreDataExchange => {
                 if self.diag_in_flight {
-                    if self.handle_diagnostics_response(fdl, &telegram).is_some() {
+                    if let Some(diag) = self.handle_diagnostics_response(fdl, &telegram) {
+                        let parameter_required =
+                            diag.flags.contains(DiagnosticFlags::PARAMETER_REQUIRED);
                         self.retry_count = 0;
                         self.diag_needed = false;
+                        if parameter_required {
+                            // The peripheral lost its parameters (e.g. power cycle), so it has
+                            // to be set up again before data exchange can continue.
+                            self.state = PeripheralState::WaitForParam;
+                        }
                         Some(PeripheralEvent::Diagnostics)
                     } else {
                         None
